@@ -14,7 +14,7 @@ import z3
 from pyvc import ops
 from pyvc.models.ase_model import AtomsScalar
 from pyvc.objects import Builtin, Ext, GeneratorVal, Obj
-from pyvc.solver import CutPath
+from pyvc.solver import CutPath, Unsupported
 from pyvc.values import PyExc, Sym, to_z3
 
 DRV = "quansino.mc.driver.Driver"
@@ -55,7 +55,27 @@ class LoggerProbe(Ext):
     def py_getattr(self, I, name):
         if name == "write_header":
             return Builtin("write_header", lambda I_, a, k: self.log.append(("header", self.sim[0].attrs["step_count"])))
+        if name == "file":
+            return LogStreamProbe()
         raise AttributeError(name)
+
+
+class LogStreamProbe(Ext):
+    """the stream behind the default logger: ANY stream, in particular one that already holds text (the default logging mode
+    is append; a user's stream may carry a preamble): its position is an arbitrary non-negative integer, it may or may not
+    be seekable.  Nothing else of it is modelled (other attributes are out of reach)."""
+    type_name = "stream(any content so far)"
+
+    def py_getattr(self, I, name):
+        if name == "tell":
+            def tell(I_, a, k):
+                pos = I_.path.fresh("bytes_already_in_the_log", "int")
+                I_.path.assume(pos.t >= 0)
+                return pos
+            return Builtin("stream.tell", tell)
+        if name == "seekable":
+            return Builtin("stream.seekable", lambda I_, a, k: I_.path.fresh("log_stream_seekable", "bool"))
+        raise Unsupported(f"log stream: attribute {name!r} is not modelled")
 
 
 class StepToken(Ext):
